@@ -20,7 +20,7 @@ while an SDK operation runs.  This file: definition and the effect of every heap
 set_option linter.unusedVariables false
 namespace AsherahVerif.Env
 
-inductive Raw | none | obj (o : Nat) | sec (s : Nat)
+inductive Raw | none | obj (o : Nat) | sec (s m : Nat)
 deriving DecidableEq, Repr
 
 structure CTab where
@@ -48,14 +48,15 @@ structure CacheOK (keys : List KeyObj) (kc : KeyCache) : Prop where
   bnd : kc.mode = .bounded → BOK kc
 
 def Raw.extra : Raw → Nat
-  | .sec _ => 1
+  | .sec _ _ => 1
   | _ => 0
 
 structure RIc (T : CTab) (raw : Raw) (h : Nat → Int) (w : World) : Prop where
   len : w.secrets.length = w.keys.length + raw.extra
-  rawSec : ∀ s, raw = .sec s → s = w.keys.length
+  rawSec : ∀ s m, raw = .sec s m → s = w.keys.length ∧ ∃ sx : Secret, w.secrets[s]? = some sx ∧ sx.mat = m
   rawObj : ∀ o, raw = .obj o → o < w.keys.length
   sec : ∀ (o : Nat) (k : KeyObj), w.keys[o]? = some k → k.sec = o
+  mat : ∀ (o : Nat) (k : KeyObj) (sx : Secret), w.keys[o]? = some k → w.secrets[o]? = some sx → sx.mat = k.mat
   led : ∀ (i : Nat) (s : Secret), w.secrets[i]? = some s → s.aac = 0 ∧
       s.closes = (match w.keys[i]? with | some k => if k.closed then 1 else 0 | none => 0)
   acc : ∀ (o : Nat) (k : KeyObj), w.keys[o]? = some k →
@@ -107,12 +108,13 @@ theorem RIc.cnt_zero_of_ge {T : CTab} {raw : Raw} {h : Nat → Int} {w : World} 
 /-- the invariant only looks at `keys`, `secrets`, `caches`. -/
 theorem RIc.frame {T : CTab} {raw : Raw} {h : Nat → Int} {w w' : World} (hi : RIc T raw h w)
     (hk : w'.keys = w.keys) (hs : w'.secrets = w.secrets) (hc : w'.caches = w.caches) : RIc T raw h w' := by
-  obtain ⟨a1, a2, a3, a4, a5, a6, a7, a8, a9, a11⟩ := hi
-  refine ⟨?_, ?_, ?_, ?_, ?_, ?_, ?_, ?_, ?_, by rw [hc]; exact a11⟩
+  obtain ⟨a1, a2, a3, a4, a4', a5, a6, a7, a8, a9, a11⟩ := hi
+  refine ⟨?_, ?_, ?_, ?_, ?_, ?_, ?_, ?_, ?_, ?_, by rw [hc]; exact a11⟩
   · rw [hk, hs]; exact a1
-  · rw [hk]; exact a2
+  · rw [hk, hs]; exact a2
   · rw [hk]; exact a3
   · rw [hk]; exact a4
+  · rw [hk, hs]; exact a4'
   · rw [hk, hs]; exact a5
   · unfold cntOf; rw [hk, hc]; exact a6
   · rw [hk]; exact a7
@@ -128,7 +130,7 @@ theorem RIc.congr_T {T T' : CTab} {raw : Raw} {h : Nat → Int} {w : World} (hi 
     (hd : ∀ c, c < w.caches.length → T.dead c = T'.dead c) (hm : ∀ c, T.mode c = T'.mode c) (hn : T.n = T'.n) : RIc T' raw h w := by
   have hcnt : ∀ o, cntOf T' h w o = cntOf T h w o := by
     intro o; unfold cntOf; rw [entCount_congr w.caches o hd]
-  refine ⟨hi.len, hi.rawSec, hi.rawObj, hi.sec, hi.led, ?_, hi.hval, ?_, ?_, by rw [← hn]; exact hi.clen⟩
+  refine ⟨hi.len, hi.rawSec, hi.rawObj, hi.sec, hi.mat, hi.led, ?_, hi.hval, ?_, ?_, by rw [← hn]; exact hi.clen⟩
   · intro o k hk; simp only [hcnt]; exact hi.acc o k hk
   · intro c kc hc hdc
     exact hi.ents c kc hc (by rw [hd c (getElem?_lt hc)]; exact hdc)
@@ -140,13 +142,17 @@ theorem RIc.congr_T {T T' : CTab} {raw : Raw} {h : Nat → Int} {w : World} (hi 
 theorem RIc.allocSecret {T : CTab} {h : Nat → Int} {w w' : World} (hi : RIc T .none h w) (x : Secret)
     (hx : x.closes = 0 ∧ x.aac = 0)
     (hk : w'.keys = w.keys) (hs : w'.secrets = w.secrets ++ [x]) (hc : w'.caches = w.caches) :
-    RIc T (.sec w.secrets.length) h w' := by
+    RIc T (.sec w.secrets.length x.mat) h w' := by
   have hlen : w.secrets.length = w.keys.length := by simpa [Raw.extra] using hi.len
-  refine ⟨?_, ?_, ?_, ?_, ?_, ?_, ?_, ?_, ?_, by rw [hc]; exact hi.clen⟩
+  refine ⟨?_, ?_, ?_, ?_, ?_, ?_, ?_, ?_, ?_, ?_, by rw [hc]; exact hi.clen⟩
   · rw [hk, hs]; simp [Raw.extra, hlen]
-  · intro s hs'; cases hs'; rw [hk]; exact hlen
+  · intro s m hs'; cases hs'; rw [hk, hs]; exact ⟨hlen, x, by simp, rfl⟩
   · intro o ho; cases ho
   · rw [hk]; exact hi.sec
+  · intro o k sx hk' hsx
+    rw [hk] at hk'
+    rw [hs, List.getElem?_append_left (by have := getElem?_lt hk'; omega)] at hsx
+    exact hi.mat o k sx hk' hsx
   · intro i s hs'
     rw [hs, getElem?_append_single] at hs'
     rw [hk]
@@ -169,16 +175,16 @@ theorem RIc.allocSecret {T : CTab} {h : Nat → Int} {w w' : World} (hi : RIc T 
   · rw [hc]; exact hi.mode
 
 /-- `newKeyObj` for the pending secret: a raw key object. -/
-theorem RIc.allocKey {T : CTab} {h : Nat → Int} {w w' : World} {s : Nat} (hi : RIc T (.sec s) h w) (x : KeyObj)
-    (hx : x.sec = s ∧ x.closed = false ∧ x.refs = 0)
+theorem RIc.allocKey {T : CTab} {h : Nat → Int} {w w' : World} {s m : Nat} (hi : RIc T (.sec s m) h w) (x : KeyObj)
+    (hx : x.sec = s ∧ x.closed = false ∧ x.refs = 0 ∧ x.mat = m)
     (hk : w'.keys = w.keys ++ [x]) (hs : w'.secrets = w.secrets) (hc : w'.caches = w.caches) :
     RIc T (.obj w.keys.length) h w' := by
-  have hs0 : s = w.keys.length := hi.rawSec s rfl
+  have hs0 : s = w.keys.length := (hi.rawSec s m rfl).1
   have hlen : w.secrets.length = w.keys.length + 1 := by simpa [Raw.extra] using hi.len
   have hcnt0 : cntOf T h w w.keys.length = 0 := hi.cnt_zero_of_ge (Nat.le_refl _)
-  refine ⟨?_, ?_, ?_, ?_, ?_, ?_, ?_, ?_, ?_, by rw [hc]; exact hi.clen⟩
+  refine ⟨?_, ?_, ?_, ?_, ?_, ?_, ?_, ?_, ?_, ?_, by rw [hc]; exact hi.clen⟩
   · rw [hk, hs]; simp [Raw.extra, hlen]
-  · intro s hs'; cases hs'
+  · intro s m hs'; cases hs'
   · intro o ho; cases ho; rw [hk]; simp
   · intro o k hk'
     rw [hk, getElem?_append_single] at hk'
@@ -186,6 +192,19 @@ theorem RIc.allocKey {T : CTab} {h : Nat → Int} {w w' : World} {s : Nat} (hi :
     · exact hi.sec o k hk'
     · split at hk'
       · cases hk'; rename_i h2; rw [h2, hx.1, hs0]
+      · cases hk'
+  · intro o k sx hk' hsx
+    rw [hs] at hsx
+    rw [hk, getElem?_append_single] at hk'
+    split at hk'
+    · exact hi.mat o k sx hk' hsx
+    · split at hk'
+      · cases hk'
+        rename_i h2
+        obtain ⟨_, sx0, hsx0, hm0⟩ := hi.rawSec s m rfl
+        rw [h2, ← hs0, hsx0] at hsx
+        cases hsx
+        rw [hm0, hx.2.2.2]
       · cases hk'
   · intro i sx hs'
     rw [hs] at hs'
@@ -211,7 +230,7 @@ theorem RIc.allocKey {T : CTab} {h : Nat → Int} {w w' : World} {s : Nat} (hi :
       · cases hk'
         rename_i h2
         subst h2
-        exact ⟨fun _ => ⟨hx.2.1, hx.2.2, hcnt0⟩, fun hne => absurd rfl hne⟩
+        exact ⟨fun _ => ⟨hx.2.1, hx.2.2.1, hcnt0⟩, fun hne => absurd rfl hne⟩
       · cases hk'
   · intro o ho; rw [hk]; have := hi.hval o ho; simp; omega
   · intro c kc hc' hd
@@ -249,8 +268,8 @@ theorem CacheOK.setAt {keys : List KeyObj} {kc : KeyCache} (h : CacheOK keys kc)
 /-- an update of object `o` that keeps `sec`, `created`, `closed` and sets `refs` consistently. -/
 theorem RIc.updKey {T : CTab} {raw raw' : Raw} {h h' : Nat → Int} {w w' : World} (hi : RIc T raw h w)
     (o : Nat) (f : KeyObj → KeyObj) (k : KeyObj) (hko : w.keys[o]? = some k)
-    (hf : ∀ x, (f x).sec = x.sec ∧ (f x).created = x.created ∧ (f x).closed = x.closed)
-    (hraw : raw'.extra = raw.extra ∧ (∀ s, raw' = .sec s → raw = .sec s) ∧ (∀ o', raw' = .obj o' → o' < w.keys.length))
+    (hf : ∀ x, (f x).sec = x.sec ∧ (f x).created = x.created ∧ (f x).closed = x.closed ∧ (f x).mat = x.mat)
+    (hraw : raw'.extra = raw.extra ∧ (∀ s m, raw' = .sec s m → raw = .sec s m) ∧ (∀ o', raw' = .obj o' → o' < w.keys.length))
     (hh : ∀ o', o' ≠ o → h' o' = h o' ∧ (raw' = .obj o' ↔ raw = .obj o'))
     (hval : h' o ≠ 0 → True)
     (hacc : (raw' = .obj o → k.closed = false ∧ (f k).refs = 0 ∧ cntOf T h' w o = 0) ∧
@@ -260,29 +279,34 @@ theorem RIc.updKey {T : CTab} {raw raw' : Raw} {h h' : Nat → Int} {w w' : Worl
   have hcnt : ∀ o', cntOf T h' w' o' = cntOf T h' w o' := by intro o'; unfold cntOf; rw [hc]
   have hcnt2 : ∀ o', o' ≠ o → cntOf T h' w o' = cntOf T h w o' := by
     intro o' ho'; unfold cntOf; rw [(hh o' ho').1]
-  refine ⟨?_, ?_, ?_, ?_, ?_, ?_, ?_, ?_, ?_, by rw [hc]; exact hi.clen⟩
+  refine ⟨?_, ?_, ?_, ?_, ?_, ?_, ?_, ?_, ?_, ?_, by rw [hc]; exact hi.clen⟩
   · rw [hk, hs, setAt_length, hraw.1]; exact hi.len
-  · intro s hs'; rw [hk, setAt_length]; exact hi.rawSec s (hraw.2.1 s hs')
+  · intro s m hs'; rw [hk, hs, setAt_length]; exact hi.rawSec s m (hraw.2.1 s m hs')
   · intro o' ho'; rw [hk, setAt_length]; exact hraw.2.2 o' ho'
   · intro o' k' hk'
     rw [hk] at hk'
     rcases keys_setAt_lookup _ _ _ _ _ hk' with ⟨rfl, k0, h0, rfl⟩ | ⟨_, h0⟩
     · rw [(hf k0).1]; exact hi.sec _ _ h0
     · exact hi.sec _ _ h0
+  · intro o' k' sx hk' hsx
+    rw [hk] at hk'; rw [hs] at hsx
+    rcases keys_setAt_lookup _ _ _ _ _ hk' with ⟨rfl, k0, h0, rfl⟩ | ⟨_, h0⟩
+    · rw [(hf k0).2.2.2]; exact hi.mat _ _ _ h0 hsx
+    · exact hi.mat _ _ _ h0 hsx
   · intro i s hs'
     rw [hs] at hs'
     have := hi.led i s hs'
     refine ⟨this.1, ?_⟩
     rw [this.2, hk, setAt_getElem?]
     by_cases e : i = o
-    · subst e; simp only [if_true, hko, Option.map_some, (hf k).2.2]
+    · subst e; simp only [if_true, hko, Option.map_some, (hf k).2.2.1]
     · simp only [e, if_false]
   · intro o' k' hk'
     rw [hk] at hk'
     rw [hcnt]
     rcases keys_setAt_lookup _ _ _ _ _ hk' with ⟨rfl, k0, h0, rfl⟩ | ⟨hne, h0⟩
     · rw [hko] at h0; cases h0
-      rw [(hf k).2.2]; exact hacc
+      rw [(hf k).2.2.1]; exact hacc
     · rw [hcnt2 o' hne]
       have := hi.acc o' k' h0
       exact ⟨fun e => this.1 ((hh o' hne).2.1 e), fun e => this.2 (fun e' => e ((hh o' hne).2.2 e'))⟩
@@ -299,8 +323,8 @@ theorem RIc.updKey {T : CTab} {raw raw' : Raw} {h h' : Nat → Int} {w w' : Worl
 /-- closing key object `o` (its `once.Do`): `closed := true` and one `Close` reaches its secret. -/
 theorem RIc.closeKey {T : CTab} {raw raw' : Raw} {h h' : Nat → Int} {w w' : World} (hi : RIc T raw h w)
     (o : Nat) (f : KeyObj → KeyObj) (k : KeyObj) (hko : w.keys[o]? = some k) (hopen : k.closed = false)
-    (hf : ∀ x, (f x).sec = x.sec ∧ (f x).created = x.created ∧ (f x).closed = true)
-    (hraw : raw'.extra = raw.extra ∧ (∀ s, raw' = .sec s → raw = .sec s) ∧ (∀ o', raw' = .obj o' → o' < w.keys.length) ∧ raw' ≠ .obj o)
+    (hf : ∀ x, (f x).sec = x.sec ∧ (f x).created = x.created ∧ (f x).closed = true ∧ (f x).mat = x.mat)
+    (hraw : raw'.extra = raw.extra ∧ (∀ s m, raw' = .sec s m → raw = .sec s m) ∧ (∀ o', raw' = .obj o' → o' < w.keys.length) ∧ raw' ≠ .obj o)
     (hh : ∀ o', o' ≠ o → h' o' = h o' ∧ (raw' = .obj o' ↔ raw = .obj o'))
     (hacc : (f k).refs = cntOf T h' w o ∧ cntOf T h' w o = 0)
     (hk : w'.keys = setAt w.keys o f)
@@ -309,15 +333,39 @@ theorem RIc.closeKey {T : CTab} {raw raw' : Raw} {h h' : Nat → Int} {w w' : Wo
   have hcnt : ∀ o', cntOf T h' w' o' = cntOf T h' w o' := by intro o'; unfold cntOf; rw [hc]
   have hcnt2 : ∀ o', o' ≠ o → cntOf T h' w o' = cntOf T h w o' := by
     intro o' ho'; unfold cntOf; rw [(hh o' ho').1]
-  refine ⟨?_, ?_, ?_, ?_, ?_, ?_, ?_, ?_, ?_, by rw [hc]; exact hi.clen⟩
+  have hsecmat : ∀ (i : Nat) (sx : Secret), w'.secrets[i]? = some sx → ∃ s0 : Secret, w.secrets[i]? = some s0 ∧ sx.mat = s0.mat := by
+    intro i sx hsx
+    rw [hs, setAt_getElem?] at hsx
+    by_cases e : i = o
+    · subst e
+      simp only [if_true] at hsx
+      cases hsi : w.secrets[i]? with
+      | none => rw [hsi] at hsx; cases hsx
+      | some s0 => rw [hsi] at hsx; simp at hsx; subst hsx; exact ⟨s0, rfl, rfl⟩
+    · simp only [e, if_false] at hsx; exact ⟨sx, hsx, rfl⟩
+  refine ⟨?_, ?_, ?_, ?_, ?_, ?_, ?_, ?_, ?_, ?_, by rw [hc]; exact hi.clen⟩
   · rw [hk, hs, setAt_length, setAt_length, hraw.1]; exact hi.len
-  · intro s hs'; rw [hk, setAt_length]; exact hi.rawSec s (hraw.2.1 s hs')
+  · intro s m hs'
+    rw [hk, setAt_length]
+    obtain ⟨q1, sx, q2, q3⟩ := hi.rawSec s m (hraw.2.1 s m hs')
+    refine ⟨q1, ?_⟩
+    rw [hs, setAt_getElem?]
+    by_cases e : s = o
+    · subst e; simp only [if_true, q2, Option.map_some]; exact ⟨_, rfl, q3⟩
+    · simp only [e, if_false]; exact ⟨sx, q2, q3⟩
   · intro o' ho'; rw [hk, setAt_length]; exact hraw.2.2.1 o' ho'
   · intro o' k' hk'
     rw [hk] at hk'
     rcases keys_setAt_lookup _ _ _ _ _ hk' with ⟨rfl, k0, h0, rfl⟩ | ⟨_, h0⟩
     · rw [(hf k0).1]; exact hi.sec _ _ h0
     · exact hi.sec _ _ h0
+  · intro o' k' sx hk' hsx
+    rw [hk] at hk'
+    obtain ⟨s0, hs0, hm0⟩ := hsecmat o' sx hsx
+    rw [hm0]
+    rcases keys_setAt_lookup _ _ _ _ _ hk' with ⟨rfl, k0, h0, rfl⟩ | ⟨_, h0⟩
+    · rw [(hf k0).2.2.2]; exact hi.mat _ _ _ h0 hs0
+    · exact hi.mat _ _ _ h0 hs0
   · intro i s hs'
     rw [hs, setAt_getElem?] at hs'
     rw [hk, setAt_getElem?]
@@ -331,7 +379,7 @@ theorem RIc.closeKey {T : CTab} {raw raw' : Raw} {h h' : Nat → Int} {w w' : Wo
         have := hi.led i s0 hsi
         rw [hko] at this
         simp only [hopen] at this
-        simp [hko, (hf k).2.2, this.1, this.2]
+        simp [hko, (hf k).2.2.1, this.1, this.2]
     · simp only [e, if_false] at hs' ⊢
       exact hi.led i s hs'
   · intro o' k' hk'
@@ -340,7 +388,7 @@ theorem RIc.closeKey {T : CTab} {raw raw' : Raw} {h h' : Nat → Int} {w w' : Wo
     rcases keys_setAt_lookup _ _ _ _ _ hk' with ⟨rfl, k0, h0, rfl⟩ | ⟨hne, h0⟩
     · rw [hko] at h0; cases h0
       refine ⟨fun e => absurd e hraw.2.2.2, fun _ => ⟨hacc.1, ?_⟩⟩
-      simp [(hf k).2.2, hacc.2]
+      simp [(hf k).2.2.1, hacc.2]
     · rw [hcnt2 o' hne]
       have := hi.acc o' k' h0
       exact ⟨fun e => this.1 ((hh o' hne).2.1 e), fun e => this.2 (fun e' => e ((hh o' hne).2.2 e'))⟩
@@ -370,11 +418,12 @@ theorem RIc.updCache {T : CTab} {raw : Raw} {h h' : Nat → Int} {w w' : World} 
     have := entCount_setAt_live (dead := T.dead) kc' o hkc hd
     have := hh o
     omega
-  refine ⟨?_, ?_, ?_, ?_, ?_, ?_, ?_, ?_, ?_, by rw [hc, setAt_length]; exact hi.clen⟩
+  refine ⟨?_, ?_, ?_, ?_, ?_, ?_, ?_, ?_, ?_, ?_, by rw [hc, setAt_length]; exact hi.clen⟩
   · rw [hk, hs]; exact hi.len
-  · rw [hk]; exact hi.rawSec
+  · rw [hk, hs]; exact hi.rawSec
   · rw [hk]; exact hi.rawObj
   · rw [hk]; exact hi.sec
+  · rw [hk, hs]; exact hi.mat
   · rw [hk, hs]; exact hi.led
   · intro o k hk'; rw [hk] at hk'; rw [hcnt]; exact hi.acc o k hk'
   · intro o ho
@@ -422,7 +471,7 @@ theorem RIc.kill {T : CTab} {raw : Raw} {h : Nat → Int} {w : World} (hi : RIc 
     have := entCount_kill (dead := T.dead) o hkc hd
     simp only
     omega
-  refine ⟨hi.len, hi.rawSec, hi.rawObj, hi.sec, hi.led, ?_, ?_, ?_, hi.mode, hi.clen⟩
+  refine ⟨hi.len, hi.rawSec, hi.rawObj, hi.sec, hi.mat, hi.led, ?_, ?_, ?_, hi.mode, hi.clen⟩
   · intro o k hk; rw [hcnt]; exact hi.acc o k hk
   · intro o ho
     by_cases h1 : h o = 0
